@@ -38,10 +38,18 @@ def _time_leaf(x):
 EtaForm = Dict[Poly, Fraction]
 
 
+def _strip_casts(e: ast.AST) -> ast.AST:
+    """float(x) / np.float64(x) / complex(x) hold the value of x."""
+    while isinstance(e, ast.Call) and len(e.args) == 1 and not e.keywords and \
+            (dotted(e.func) or "").split(".")[-1] in ("float", "float64", "complex", "asarray"):
+        e = e.args[0]
+    return e
+
+
 def eta_form(e: ast.AST, eta_name: str) -> Optional[EtaForm]:
     """Linear combination of eta(<affine>) calls: {affine argument: coefficient}."""
     if isinstance(e, ast.Call) and (dotted(e.func) or "").split(".")[-1] == eta_name and e.args:
-        arg = eval_form(e.args[0], _time_leaf)
+        arg = eval_form(_strip_casts(e.args[0]), _time_leaf)
         if arg is None:
             return None
         return {arg: Fraction(1)}
@@ -150,7 +158,102 @@ def closed_forms(prog: Program) -> Dict[str, Tuple[Optional[EtaForm], ast.AST]]:
                       and isinstance(t, ast.Compare) and dotted(t.left) == "shape"
                       and isinstance(t.comparators[0], ast.Constant)]
             if len(shapes) == 1:
-                out[shapes[0]] = (eta_form(st.value, "eta_function"), st)
+                value = _inline_helpers(u, st.value)
+                out[shapes[0]] = (eta_form(value, "eta_function"), st)
+                _NON_AFFINE[shapes[0]] = non_affine_eta_arguments(value, "eta_function")
+    return out
+
+
+_NON_AFFINE: Dict[str, List[str]] = {}
+
+
+def non_affine_eta_arguments(e: ast.AST, eta_name: str) -> List[str]:
+    """Arguments of eta(...) calls in e that are not affine forms of time_1, time_2, delta."""
+    out = []
+    for x in ast.walk(e):
+        if isinstance(x, ast.Call) and (dotted(x.func) or "").split(".")[-1] == eta_name and x.args:
+            if eval_form(_strip_casts(x.args[0]), _time_leaf) is None:
+                out.append(norm(x.args[0]))
+    return out
+
+
+def _inline_helpers(u: Unit, e: ast.AST, depth: int = 0) -> ast.AST:
+    """e with calls of the method's own one-expression helpers (`h = lambda p: E`, or a nested
+    `def h(p): return E`) replaced by E[p := argument]."""
+    import copy
+    helpers: Dict[str, Tuple[List[str], ast.AST]] = {}
+    for st in ast.walk(u.node):
+        if isinstance(st, ast.Assign) and len(st.targets) == 1 and isinstance(st.targets[0], ast.Name) \
+                and isinstance(st.value, ast.Lambda):
+            helpers[st.targets[0].id] = ([a.arg for a in st.value.args.args], st.value.body)
+        elif isinstance(st, ast.FunctionDef) and st is not u.node:
+            body = [b for b in st.body if not (isinstance(b, ast.Expr)
+                                               and isinstance(b.value, ast.Constant))]
+            if len(body) == 1 and isinstance(body[0], ast.Return) and body[0].value is not None:
+                helpers[st.name] = ([a.arg for a in st.args.args], body[0].value)
+    if not helpers or depth > 3:
+        return e
+
+    class Inline(ast.NodeTransformer):
+        def visit_Call(self, node):
+            self.generic_visit(node)
+            if isinstance(node.func, ast.Name) and node.func.id in helpers and not node.keywords:
+                params, body = helpers[node.func.id]
+                if len(params) != len(node.args):
+                    return node
+                env = dict(zip(params, node.args))
+
+                class Sub(ast.NodeTransformer):
+                    def visit_Name(self, n):
+                        if isinstance(n.ctx, ast.Load) and n.id in env:
+                            return copy.deepcopy(env[n.id])
+                        return n
+                new = Sub().visit(copy.deepcopy(body))
+                return ast.copy_location(new, node)
+            return node
+    out = Inline().visit(copy.deepcopy(e))
+    ast.fix_missing_locations(out)
+    return out
+
+
+def _l1_reason(bad_args: List[str], region: str, want) -> str:
+    if bad_args:
+        return (f"eta is evaluated at `{bad_args[0]}`, which is not the corner of the cell (an "
+                f"affine form of time_1, time_2, delta): a time that is rounded, clipped or "
+                f"otherwise altered moves the corner - by an amount that depends on the unit of "
+                f"time when the alteration is absolute - and the cell integrals no longer equal "
+                f"the double integral of the correlation function over {region}")
+    return f"the quadrature sibling integrates {region}, whose closed form is {_fmt(want)}"
+
+
+def cell_closed_form_checks(prog: Program, regions=None, forms=None):
+    """(shape, closed form found, closed form wanted, region text, statement, non-affine eta
+    arguments, is-triangle) for every shape both implementations handle."""
+    regions = regions if regions is not None else quadrature_regions(prog)
+    forms = forms if forms is not None else closed_forms(prog)
+    out = []
+    for shape, (a, b, g, h) in sorted(regions.items()):
+        if shape not in forms:
+            continue
+        got, st = forms[shape]
+        if g is None or h is None:
+            raise AnalysisError(f"L1: integration bounds of shape {shape!r} unreadable")
+        tri = False
+        if "X" not in (g.symbols() | h.symbols()):
+            c, d = g, h
+            want: EtaForm = {}
+            for arg, coef in ((b - c, 1), (a - c, -1), (b - d, -1), (a - d, 1)):
+                want[arg] = want.get(arg, Fraction(0)) + coef
+            want = {k: v for k, v in want.items() if v != 0}
+            region = f"[{a}, {b}] x [{c}, {d}]"
+        elif g == ZERO and h == Poly.sym("X") - a:
+            want = {b: Fraction(1), a: Fraction(-1)}
+            region = f"[{a}, {b}] x [0, x - {a}] (triangle)"
+            tri = True
+        else:
+            raise AnalysisError(f"L1: region of shape {shape!r} ({g}, {h}) outside the "
+                                f"enumerated idioms")
+        out.append((shape, got, want, region, st, _NON_AFFINE.get(shape) or [], tri))
     return out
 
 
@@ -172,30 +275,12 @@ def l1_l2(prog: Program, chk: Check) -> None:
             set(forms) == set(regions),
             "" if set(forms) == set(regions) else "the two implementations handle different shapes")
     tri_shapes = []
-    for shape, (a, b, g, h) in sorted(regions.items()):
-        if shape not in forms:
-            continue
-        got, st = forms[shape]
-        if g is None or h is None:
-            raise AnalysisError(f"L1: integration bounds of shape {shape!r} unreadable")
-        if "X" not in (g.symbols() | h.symbols()):
-            c, d = g, h
-            want: EtaForm = {}
-            for arg, coef in ((b - c, 1), (a - c, -1), (b - d, -1), (a - d, 1)):
-                want[arg] = want.get(arg, Fraction(0)) + coef
-            want = {k: v for k, v in want.items() if v != 0}
-            region = f"[{a}, {b}] x [{c}, {d}]"
-        elif g == ZERO and h == Poly.sym("X") - a:
-            want = {b: Fraction(1), a: Fraction(-1)}
-            region = f"[{a}, {b}] x [0, x - {a}] (triangle)"
+    for (shape, got, want, region, st, bad_args, tri) in cell_closed_form_checks(prog, regions, forms):
+        if tri:
             tri_shapes.append(shape)
-        else:
-            raise AnalysisError(f"L1: region of shape {shape!r} ({g}, {h}) outside the "
-                                f"enumerated idioms")
         ok = got == want
         chk.add("L1", sd, f"shape {shape!r}: {_fmt(got)}", ok,
-                f"= double antiderivative over {region}" if ok else
-                f"the quadrature sibling integrates {region}, whose closed form is {_fmt(want)}",
+                f"= double antiderivative over {region}" if ok else _l1_reason(bad_args, region, want),
                 st)
     # callers
     callers = []
